@@ -668,6 +668,17 @@ def rule_e(ctx: Context, R: Reporter):
                     ok_all = False
                     continue
                 on_resume = cfg.reaches(load_node.id, d.node.id)
+                if on_resume and is_const(d.value):
+                    # fallback for a checkpoint without an iteration counter: legal only under `<restored iter> is None`
+                    fb = False
+                    for (t, pol) in conds_holding_at(cfg, d.node):
+                        nt = is_none_test(t)
+                        if nt is not None and nt[1] == pol:
+                            rx0 = ExprResolver(fi.node).resolve(nt[0], d.node)
+                            if any(isinstance(c, ast.Call) and isinstance(c.func, ast.Attribute) and c.func.attr == "get_current" and isinstance(call_arg(c, 0, "key"), ast.Constant) and call_arg(c, 0, "key").value == "iter" for c in ast.walk(rx0)):
+                                fb = True
+                    if fb:
+                        continue
                 if on_resume:
                     leaves, _ = expr_leaves(fi.node, d.value, d.node) if d.value is not None else (set(), set())
                     rx = ExprResolver(fi.node).resolve(d.value, d.node)
